@@ -109,7 +109,8 @@ def handleConv (op : String) (args : List String) (impl : Impl) : Option Ans :=
     let m := e.to ts
     let fits := convFits e ts
     let i ← instOf e
-    let sp := if !fits then noPanic impl else match impl with
+    let inserted := ts == TS.UTC && e.ts != TS.UTC && inInserted iersTbl i
+    let sp := if !fits || inserted then noPanic impl else match impl with
       | .ok [r] => (match parseDur? r with
           | some r => verdict [("canonical", scanon r), ("instant", denotes iersTbl ts.name (sval r) i)]
           | none => "FAIL:decode")
@@ -150,14 +151,16 @@ def handleConv (op : String) (args : List String) (impl : Impl) : Option Ans :=
                           else (e.to ts).map (·.dur)
     let fits := convFits e ts
     let i ← instOf e
-    let sp := if !fits then noPanic impl else match impl with
+    -- an instant inside an inserted second has no UTC count (as for `tots`: only monotonicity is demanded there, D9b)
+    let inserted := ts == TS.UTC && e.ts != TS.UTC && inInserted iersTbl i
+    let sp := if !fits || inserted then noPanic impl else match impl with
       | .ok [r] => (match parseDur? r with
           | some r => verdict [("canonical", scanon r), ("instant", denotes iersTbl ts.name (sval r) i)]
           | none => "FAIL:decode")
       | .other w => "FAIL:" ++ w
       | _ => "FAIL:decode"
     pure { model := (match m with | some x => "ok " ++ showDur x | none => "unmodelled"), spec := sp,
-           branch := "acc:" ++ name ++ ":" ++ e.ts.name ++ (if fits then "" else ":saturating") }
+           branch := "acc:" ++ name ++ ":" ++ e.ts.name ++ (if !fits then ":saturating" else if inserted then ":inserted_second" else "") }
   | "from_dur", [name, d] => do
     let d ← parseDur? d
     let ts ← (match name with
